@@ -7,6 +7,7 @@
 From SF Require Import Base.Val C14.Writer C14.WriterProof.
 From Gen Require Import C14Facts.
 Open Scope string_scope.
+Definition gen_residue : residue_fn := residue_of gen_cfg.
 
 Definition fr_ab : tbl := mkTbl [("a", TInt); ("b", TInt)] [[VInt 1; VInt 2]].
 Definition fr_ba : tbl := mkTbl [("b", TInt); ("a", TInt)] [[VInt 10; VInt 20]].
@@ -18,7 +19,7 @@ Ltac refute_modes w :=
 
 (* ---- refutation: C14/path-write-ignores-writer-mode ---- *)
 (** df.write.mode("overwrite").parquet(p): the writer's mode never reaches _write (FileExistsError) *)
-Theorem C14_refuted_writer_mode_ignored_for_paths : ~ modes_full gen_cfg duckdb_residue.
+Theorem C14_refuted_writer_mode_ignored_for_paths : ~ modes_full gen_cfg gen_residue.
 Proof.
   refute_modes [OpWrite "p" FParquet None None (DGood fr_ab); OpWrite "p" FParquet None (Some "overwrite") (DGood fr_ba);
                 OpReadPath "p" FParquet].
@@ -27,13 +28,13 @@ Print Assumptions C14_refuted_writer_mode_ignored_for_paths.
 
 (* ---- refutation: C14/saveAsTable-append-absent-table-raises ---- *)
 (** saveAsTable(mode="append") on a table that does not exist yet raises instead of creating it *)
-Theorem C14_refuted_append_to_absent_table : ~ modes_full gen_cfg duckdb_residue.
+Theorem C14_refuted_append_to_absent_table : ~ modes_full gen_cfg gen_residue.
 Proof. refute_modes [OpSave "t" (Some "append") None (DGood fr_ab); OpExists "t"]. Qed.
 Print Assumptions C14_refuted_append_to_absent_table.
 
 (* ---- refutation: C14/saveAsTable-append-is-positional ---- *)
 (** saveAsTable(mode="append") inserts by position; PySpark resolves the columns by name *)
-Theorem C14_refuted_append_is_positional : ~ modes_full gen_cfg duckdb_residue.
+Theorem C14_refuted_append_is_positional : ~ modes_full gen_cfg gen_residue.
 Proof.
   refute_modes [OpSave "t" None None (DGood fr_ab); OpSave "t" (Some "append") None (DGood fr_ba); OpReadTable "t"].
 Qed.
@@ -41,7 +42,7 @@ Print Assumptions C14_refuted_append_is_positional.
 
 (* ---- refutation: C14/table-read-stale-schema-cache ---- *)
 (** session.table after the table was replaced with other columns reads the stale cached column list *)
-Theorem C14_refuted_stale_schema_cache : ~ modes_full gen_cfg duckdb_residue.
+Theorem C14_refuted_stale_schema_cache : ~ modes_full gen_cfg gen_residue.
 Proof.
   refute_modes [OpSave "t" None None (DGood fr_ab); OpReadTable "t"; OpSave "t" (Some "overwrite") None (DGood fr_c);
                 OpReadTable "t"].
@@ -50,7 +51,7 @@ Print Assumptions C14_refuted_stale_schema_cache.
 
 (* ---- refutation: C14/byName-uncached-table-is-positional ---- *)
 (** byName.insertInto on a table the session has not read yet is positional *)
-Theorem C14_refuted_byname_uncached_is_positional : ~ modes_full gen_cfg duckdb_residue.
+Theorem C14_refuted_byname_uncached_is_positional : ~ modes_full gen_cfg gen_residue.
 Proof.
   refute_modes [OpSave "t" None None (DGood fr_ab); OpInsert "t" true (DGood fr_ba); OpReadTable "t"].
 Qed.
@@ -59,7 +60,7 @@ Print Assumptions C14_refuted_byname_uncached_is_positional.
 (* ---- refutation: C14/byName-stale-schema-cache ---- *)
 (** byName.insertInto orders by the stale cached columns after the table was replaced: the values land in the wrong
     columns (seen in the final table contents, not in any outcome) *)
-Theorem C14_refuted_byname_stale_cache : ~ modes_full gen_cfg duckdb_residue.
+Theorem C14_refuted_byname_stale_cache : ~ modes_full gen_cfg gen_residue.
 Proof.
   refute_modes [OpSave "t" None None (DGood fr_ab); OpReadTable "t"; OpSave "t" (Some "overwrite") None (DGood fr_ba);
                 OpInsert "t" true (DGood fr_ab)].
@@ -68,7 +69,7 @@ Print Assumptions C14_refuted_byname_stale_cache.
 
 (* ---- refutation: C14/path-append-raises-NotImplementedError ---- *)
 (** file targets cannot be appended to (NotImplementedError) *)
-Theorem C14_refuted_path_append_unsupported : ~ modes_full gen_cfg duckdb_residue.
+Theorem C14_refuted_path_append_unsupported : ~ modes_full gen_cfg gen_residue.
 Proof.
   refute_modes [OpWrite "p" FParquet None None (DGood fr_ab); OpWrite "p" FParquet (Some "append") None (DGood fr_ab)].
 Qed.
@@ -76,7 +77,7 @@ Print Assumptions C14_refuted_path_append_unsupported.
 
 (* ---- refutation: C14/failed-copy-to-new-path-leaves-partial-file ---- *)
 (** runtime half: with what DuckDB leaves behind when COPY to a *new* path fails, the fault clause is false *)
-Theorem C14_refuted_failed_copy_leaves_partial_file : ~ faults_full gen_cfg duckdb_residue.
+Theorem C14_refuted_failed_copy_leaves_partial_file : ~ faults_full gen_cfg gen_residue.
 Proof.
   unfold faults_full. intro H.
   specialize (H m_init (OpWrite "p" FCsv None None (DBad fr_ab)) (DBad fr_ab) eq_refl eq_refl eq_refl).
